@@ -4,5 +4,9 @@ set -e
 R=$1; O=$2; D=$(cd "$(dirname "$0")" && pwd)
 rm -rf "$O"; mkdir -p "$O"
 ls $R/cpp/*.cpp $R/cpp/private/*.cpp $R/cpp/ranges/*.cpp $D/main.cpp | \
-  xargs -P 16 -I{} sh -c "g++ -std=c++11 -O1 -DHAVE_REGEX=1 -I$R/cpp -w -c {} -o $O/\$(echo {} | tr / _).o"
-g++ -o $O/cppdriver $O/*.o
+  xargs -P 16 -I{} sh -c "g++ -std=c++11 -O1 -g -fsanitize=undefined -fno-sanitize-recover=all -DHAVE_REGEX=1 -I$R/cpp -w -c {} -o $O/\$(echo {} | tr / _).o"
+# (UBSan: undefined behaviour in the port — signed overflow, labs(LONG_MIN), bad shifts, … — stops
+#  the driver, which the runner reports as a crash of the operation being answered)
+# (the driver object first: its statics are then initialised before the library's)
+M=$O/$(echo $D/main.cpp | tr / _).o
+g++ -fsanitize=undefined -o $O/cppdriver $M $(ls $O/*.o | grep -v -F "$M")
